@@ -3,7 +3,15 @@
 Translated (data only): DataCollection.WRITE_PERIOD, DataSet.MIN_INTERVAL / MAX_INTERVAL / CONTINUOUS,
 core_defs.ALL_MESSAGE_TYPES, the field list of header.MessageHeader (-> header size, offset of
 num_data_bytes), the field list of quicklogger_reader.QLFileHeader (-> field order) and the constants
-QLFormatter.__init__ stores into the file header."""
+QLFormatter.__init__ stores into the file header.
+
+Hand-off shape (the protocol Model/LoggerFixed.v models; any other shape fails closed):
+  __init__      : exactly one `self.write_finished.set()`, after both Events are created and before the thread starts
+  update()      : the only event test is `if not self.write_finished.is_set(): <warning> else: next_write = ..; trigger_write()`
+  stop()        : first statement after logging is `while not self.write_finished.wait(..): pass`; no other event operation
+  trigger_write : `for ds: ds.stage_for_write()`, then `write_finished.clear()`, then `write_to_disk.set()`
+  write()       : `while not self._close: if self.write_to_disk.wait(..): for ds: ds.write(); write_to_disk.clear();
+                  write_finished.set()` - clear strictly before set, set last."""
 from __future__ import annotations
 
 import ast
@@ -59,6 +67,127 @@ def _fields(cls: ast.ClassDef) -> List[Tuple[str, int]]:
     return out
 
 
+EVENTS = ("write_to_disk", "write_finished")
+
+
+def _u(n: ast.AST) -> str:
+    return ast.unparse(n).strip()
+
+
+def _event_ops(fn: ast.AST) -> List[str]:
+    """every `self.<event>.<op>(...)` call inside fn, in source order, as 'event.op'"""
+    out = []
+    for n in ast.walk(fn):
+        if isinstance(n, ast.Call) and isinstance(n.func, ast.Attribute) and isinstance(n.func.value, ast.Attribute) \
+                and isinstance(n.func.value.value, ast.Name) and n.func.value.value.id == "self" \
+                and n.func.value.attr in EVENTS:
+            out.append((n.lineno, n.col_offset, f"{n.func.value.attr}.{n.func.attr}"))
+    return [x[2] for x in sorted(out)]
+
+
+def _no_logging(body: List[ast.stmt]) -> List[ast.stmt]:
+    """drop docstrings and self.logger.<level>(...) statements"""
+    out = []
+    for st in body:
+        if isinstance(st, ast.Expr) and isinstance(st.value, ast.Constant) and isinstance(st.value.value, str):
+            continue
+        if isinstance(st, ast.Expr) and isinstance(st.value, ast.Call) and _u(st.value.func).startswith("self.logger."):
+            continue
+        out.append(st)
+    return out
+
+
+def handoff_shape(dc: ast.Module) -> None:
+    """raise TranslateError unless DataCollection has exactly the hand-off shape described in the module docstring"""
+    cls = find_class(dc, "DataCollection")
+
+    # __init__
+    init = find_func(cls, "__init__")
+    body = [_u(st) for st in init.body]
+    want = ["self.write_to_disk = threading.Event()", "self.write_finished = threading.Event()", "self.write_finished.set()"]
+    pos = []
+    for w in want:
+        hits = [i for i, b in enumerate(body) if b == w]
+        if len(hits) != 1:
+            raise TranslateError(f"__init__: expected exactly one top-level statement `{w}`, found {len(hits)}")
+        pos.append(hits[0])
+    if not (pos[0] < pos[2] and pos[1] < pos[2]):
+        raise TranslateError("__init__: write_finished.set() does not follow the creation of the events")
+    thr = [i for i, st in enumerate(init.body) if "self.write_thread.start()" in _u(st)]
+    if len(thr) != 1 or thr[0] < pos[2]:
+        raise TranslateError("__init__: write_finished.set() must precede the (single) start of the writer thread")
+    if _event_ops(init) != ["write_finished.set"]:
+        raise TranslateError(f"__init__: unexpected event operations {_event_ops(init)}")
+
+    # update(): the gate
+    upd = find_func(cls, "update")
+    if _event_ops(upd) != ["write_finished.is_set"]:
+        raise TranslateError(f"update(): event operations are {_event_ops(upd)}, expected only write_finished.is_set")
+    last = upd.body[-1]
+    if not (isinstance(last, ast.If) and _u(last.test) == "write" and len(last.body) == 1 and not last.orelse):
+        raise TranslateError("update(): last statement is not `if write: <gate>`")
+    gate = last.body[0]
+    if not (isinstance(gate, ast.If) and _u(gate.test) == "not self.write_finished.is_set()"):
+        raise TranslateError("update(): gate is not `if not self.write_finished.is_set()`")
+    if _no_logging(gate.body):
+        raise TranslateError("update(): the busy branch does more than log a warning")
+    els = [_u(st) for st in _no_logging(gate.orelse)]
+    if els != ["self.next_write = elapsed + DataCollection.WRITE_PERIOD", "self.trigger_write()"]:
+        raise TranslateError(f"update(): idle branch is {els}")
+
+    # stop(): unconditional wait first, nothing else on the events
+    stop = find_func(cls, "stop")
+    sb = _no_logging(stop.body)
+    if not sb or not (isinstance(sb[0], ast.While) and not sb[0].orelse
+                      and isinstance(sb[0].test, ast.UnaryOp) and isinstance(sb[0].test.op, ast.Not)
+                      and isinstance(sb[0].test.operand, ast.Call)
+                      and _u(sb[0].test.operand.func) == "self.write_finished.wait"
+                      and len(sb[0].body) == 1 and isinstance(sb[0].body[0], ast.Pass)):
+        raise TranslateError("stop(): first statement is not `while not self.write_finished.wait(..): pass`")
+    if _event_ops(stop) != ["write_finished.wait"]:
+        raise TranslateError(f"stop(): event operations are {_event_ops(stop)}, expected only the wait")
+    if len(sb) < 2 or not (isinstance(sb[1], ast.For) and _u(sb[1].iter) == "self.datasets"
+                           and [_u(x) for x in sb[1].body] == ["ds.collection_stopped = True", "ds.stop()", "ds.close()"]):
+        raise TranslateError("stop(): the data-set loop is not `collection_stopped = True; ds.stop(); ds.close()`")
+
+    # trigger_write(): stage all, clear finished, set to_disk
+    tw = find_func(cls, "trigger_write")
+    tb = _no_logging(tw.body)
+    if len(tb) < 3 or not (isinstance(tb[0], ast.For) and _u(tb[0].iter) == "self.datasets"
+                           and [_u(x) for x in tb[0].body] == ["ds.stage_for_write()"]):
+        raise TranslateError("trigger_write(): does not start with `for ds in self.datasets: ds.stage_for_write()`")
+    if [_u(tb[1]), _u(tb[2])] != ["self.write_finished.clear()", "self.write_to_disk.set()"]:
+        raise TranslateError("trigger_write(): not `write_finished.clear(); write_to_disk.set()` after staging")
+    if _event_ops(tw) != ["write_finished.clear", "write_to_disk.set"]:
+        raise TranslateError(f"trigger_write(): event operations are {_event_ops(tw)}")
+
+    # write(): the writer loop
+    wr = find_func(cls, "write")
+    wb = _no_logging(wr.body)
+    if len(wb) != 1 or not isinstance(wb[0], ast.Try):
+        raise TranslateError("write(): body is not a single try statement")
+    tryb = wb[0].body
+    if len(tryb) != 1 or not (isinstance(tryb[0], ast.While) and _u(tryb[0].test) == "not self._close"):
+        raise TranslateError("write(): not `while not self._close:`")
+    lb = tryb[0].body
+    if len(lb) != 1 or not (isinstance(lb[0], ast.If) and not lb[0].orelse and isinstance(lb[0].test, ast.Call)
+                            and _u(lb[0].test.func) == "self.write_to_disk.wait"):
+        raise TranslateError("write(): loop body is not `if self.write_to_disk.wait(..):`")
+    ib = lb[0].body
+    if len(ib) != 3 or not (isinstance(ib[0], ast.For) and _u(ib[0].iter) == "self.datasets"
+                            and [_u(x) for x in ib[0].body] == ["ds.write()"]) \
+            or [_u(ib[1]), _u(ib[2])] != ["self.write_to_disk.clear()", "self.write_finished.set()"]:
+        raise TranslateError("write(): round is not `for ds: ds.write(); write_to_disk.clear(); write_finished.set()`")
+    if _event_ops(wr) != ["write_to_disk.wait", "write_to_disk.clear", "write_finished.set"]:
+        raise TranslateError(f"write(): event operations are {_event_ops(wr)}")
+
+    # nobody else touches the events (pause/resume/start/close/add/rm): only blocking_write (use_thread=False, out of scope)
+    for fn in cls.body:
+        if isinstance(fn, ast.FunctionDef) and fn.name not in ("__init__", "update", "stop", "trigger_write", "write",
+                                                                "blocking_write") and _event_ops(fn):
+            raise TranslateError(f"{fn.name}(): unexpected event operations {_event_ops(fn)}")
+
+
 def render() -> str:
     dc = load("data_logger/data_collection.py")
     ds = load("data_logger/data_set.py")
@@ -67,6 +196,7 @@ def render() -> str:
     qr = load("utils/quicklogger_reader.py")
     qf = load("data_logger/formatters/quicklogger.py")
 
+    handoff_shape(dc)
     wp = _int_const(_class_const(find_class(dc, "DataCollection"), "WRITE_PERIOD"), "WRITE_PERIOD")
     dsc = find_class(ds, "DataSet")
     mn = _int_const(_class_const(dsc, "MIN_INTERVAL"), "MIN_INTERVAL")
@@ -125,6 +255,14 @@ def render() -> str:
          f"Definition gen_ql_format_version : Z := {stored['format_version']}.",
          f"Definition gen_ql_offset_size : Z := {stored['data_block_offset_size']}.",
          f"Definition gen_ql_init_messages : Z := {stored['num_messages']}.",
+         "(* hand-off shape of DataCollection, located structurally by handoff_shape(); the translator refuses to emit",
+         "   this file (fails closed) when any of them does not hold *)",
+         "Definition gen_handoff_init_sets_write_finished : bool := true.",
+         "Definition gen_handoff_update_gates_on_write_finished : bool := true.",
+         "Definition gen_handoff_stop_waits_unconditionally : bool := true.",
+         "Definition gen_handoff_stop_clears_nothing : bool := true.",
+         "Definition gen_handoff_writer_clear_then_set : bool := true.",
+         "Definition gen_handoff_trigger_stage_clear_set : bool := true.",
          ""]
     return "\n".join(L)
 
